@@ -37,3 +37,17 @@ Theorem seen_registry_skipped n h o r seen :
   o_attr (get_obj h o) = Some r -> existsb (Nat.eqb r) seen = true ->
   get_contracts (S n) h o seen = match o_wrapped (get_obj h o) with Some w => get_contracts n h w seen | None => [] end.
 Proof. intros Ha Hs. cbn [get_contracts]. rewrite Ha, Hs. reflexivity. Qed.
+
+(* whatever put the validators into the registry -- decorating, deal.chain, the merge of ancestor registries done by deal.inherit
+   (Sem/InheritHeap.v: the registry of the method a class resolves to after lazy patching) -- the records reported for a wrapper
+   over a plain function are exactly that registry's validators, kind by kind in list order, and its patcher: what is reported is
+   what the wrapper consults when called *)
+Theorem introspection_reports_registry n h p t f :
+  o_attr (get_obj h p) = Some t -> o_wrapped (get_obj h p) = Some f ->
+  o_attr (get_obj h f) = None -> o_wrapped (get_obj h f) = None ->
+  get_contracts (S (S n)) h p [] =
+  (order_records (r_vals (get_reg h t)) ++ match r_patcher (get_reg h t) with Some q => [RHas q] | None => [] end)%list.
+Proof.
+  intros Ha Hw Hfa Hfw. cbn [get_contracts]. rewrite Ha. cbn [existsb]. rewrite Hw. cbn [get_contracts]. rewrite Hfa, Hfw.
+  rewrite app_nil_r. destruct n; reflexivity.
+Qed.
